@@ -145,6 +145,7 @@ def _mk_bare(n, md):
 def k2_leaf(i: int, j: int, s0: int, s1: int, bsel: int):
     """pattern from own values matches; one differing leaf does not; 0 / False / '0' are different leaves"""
     assume(-3 <= i <= 3 and -3 <= j <= 3)
+    i, j = pc.pin(i, -3, 3), pc.pin(j, -3, 3)      # concrete ints: pfst's primitive matcher compares real classes, which a symbolic int proxy does not have
     a, b = _sym_letter(s0), _sym_letter(s1)
     assume(0 <= bsel <= 3)
     tgt = ast.Call(func=ast.Name(id=a, ctx=ast.Load()), args=[ast.Constant(value=i)], keywords=[])
@@ -156,7 +157,7 @@ def k2_leaf(i: int, j: int, s0: int, s1: int, bsel: int):
     check((m is not None) == same, 'leaf.match_not_equivalent_to_equality', (a, b, pc.R(i), pc.R(j)))
     # bool vs int vs str
     other = [False, True, '0', 0.0][pc.pin(bsel, 0, 3)]
-    ic = pc.pin(i, -3, 3)       # concrete from here on: type distinctions are made on the real int object (a symbolic proxy has no real __class__)
+    ic = i
     t2 = ast.Constant(value=other)
     m2 = MConstant(value=ic).match(t2)
     check(m2 is None, 'leaf.int_pattern_matches_non_int_constant', (ic, other))
@@ -237,7 +238,7 @@ for _sk in SKELETONS:
     for _n in (0, 1, 2, 3, 4):
         for _g in range(1 << _nq):
             _sub = any(isinstance(s, tuple) for s in _sk)
-            _q = _n <= 3 and _sk in (('a', '.'), ('a', 'lit:b', '.'), (('a', 'b'), '.')) and not (_sub and _n == 3 and _g in (1, 2))
+            _q = (_n <= 3 and _sk in (('a', '.'), ('a', 'lit:b', '.'), (('a', 'b'), '.')) and not (_sub and _n == 3 and _g in (1, 2))) or (_sk == ('.', 'a') and _n <= 2)
             CELLS.append(Cell(f'K1.quant[{"".join(str(s) if not isinstance(s, tuple) else "(" + "".join(s) + ")" for s in _sk)},n={_n},greedy={_g:0{_nq}b}]',
                               _mk_quant(list(_sk), _n, _g), 'K', FNM[:3],
                               f'pattern skeleton {_sk} (quantified items with SYMBOLIC min >= 0 and max >= min or None, all integers); target = {_n} symbolic letters from {{a,b,c}}; '
